@@ -1825,13 +1825,17 @@ func (mvcc *MVCCLevelDB) RawBatchGet(cf string, keys [][]byte) [][]byte {
 
 	db := mvcc.getDB(cf)
 	if db == nil {
-		return nil
+		// a column family that was never written holds no key: one nil value per key
+		return make([][]byte, len(keys))
 	}
 
 	values := make([][]byte, 0, len(keys))
 	for _, key := range keys {
 		value, err := db.Get(key, nil)
-		if err != leveldb.ErrNotFound {
+		if err == leveldb.ErrNotFound {
+			// leveldb returns a non-nil empty slice for a deleted key
+			value = nil
+		} else {
 			tikverr.Log(err)
 		}
 		values = append(values, value)
